@@ -48,6 +48,22 @@ Definition rcp_safe_arg (x : R) : R :=
   if Rlt_bool (Rabs x) FLT_MIN then (if Rle_bool 0 x then FLT_MIN else - FLT_MIN) else x.
 Definition rcp_safe (rcp : R -> R) (x : R) : R := rcp (rcp_safe_arg x).
 
+(* ---- type-generic reading of the templates / double overloads: the same text at any precision.
+   rn is the rounding of the type T, tmin = std::numeric_limits<T>::min().
+   rcp(T) (NO_SIMD form and the double overload) = 1/x;  rcp_safe_t<T> as above with T's constants. *)
+Definition rnd64 (x : R) : R := round radix2 (FLT_exp (-1074) 53) ZnearestE x.
+Definition DBL_MIN : R := bpow radix2 (-1022).
+Section AnyPrecision.
+  Variable rn : R -> R.
+  Variable tmin : R.
+  Definition rcp_g (x : R) : R := rn (1 / x).
+  Definition rcp_safe_arg_g (x : R) : R :=
+    if Rlt_bool (Rabs x) tmin then (if Rle_bool 0 x then tmin else - tmin) else x.
+  Definition rcp_safe_g (x : R) : R := rcp_g (rcp_safe_arg_g x).
+  Definition rsqrt_g (x : R) : R := rn (1 / rn (sqrt x)).
+  Definition madd_g (a b c : R) : R := rn (rn (a * b) + c).
+End AnyPrecision.
+
 (* clamp / min / max at float: the generic definition of Model.v with operator< *)
 Definition clampR (x lo hi : R) : R := clamp R Rlt_bool x lo hi.
 Definition maxR (a b : R) : R := gmax R Rlt_bool a b.
